@@ -322,6 +322,19 @@ func extractRPCServerDone(p *pkgs, f *facts) {
 		f.miss = append(f.miss, "RPCServer.done")
 		only = false
 	}
+	// cmdrunner.ReattachFunc: net.Dial(addr.Network(), addr.String()) is called, its error leads to ErrProcessNotFound, and
+	// nothing in the function looks at the file system (os.Stat / os.Lstat / os.Open)
+	probe := false
+	if rf := p.fn("", "ReattachFunc"); rf != nil {
+		cs := nodeCalls(rf.Body)
+		dial := strings.Contains(cs, "net.Dial(addr.Network(),addr.String())")
+		fsLook := strings.Contains(cs, "os.Stat(") || strings.Contains(cs, "os.Lstat(") || strings.Contains(cs, "os.Open(") || strings.Contains(cs, "os.ReadDir(")
+		probe = dial && !fsLook
+	} else {
+		f.miss = append(f.miss, "cmdrunner.ReattachFunc")
+	}
+	f.lean = append(f.lean, fmt.Sprintf("def reattachProbe : Lifecycle.ReattachParams := ⟨%s⟩", leanBool(probe)))
+	f.set("reattachProbe", map[string]interface{}{"probeConnects": probe})
 	f.lean = append(f.lean, fmt.Sprintf("def rpcServer : Lifecycle.ServerParams := ⟨%s⟩", leanBool(only)))
 	f.set("rpcServer", map[string]interface{}{"doneOnlyOnQuit": only, "doneCallers": fmt.Sprint(callers)})
 }
